@@ -40,6 +40,8 @@ void    vs_outcome(const char *fmt, ...) __attribute__((format(printf, 1, 2)));
 void    vs_fail(const char *clause, const char *fmt, ...)
     __attribute__((format(printf, 2, 3), noreturn));
 // the injected fault / cut / deviation was really consumed by the library
+void    vs_soft_fail(const char *clause, const char *fmt, ...)
+    __attribute__((format(printf, 2, 3)));
 void    vs_nontrivial(void);
 void    vs_case(void); // one enumerated case inside a batched execution
 extern int vs_atomic_points; // nni_atomic RMW are scheduling points
